@@ -884,7 +884,8 @@ impl Monitor for C18 {
                         let exact = |c: &str| -> bool {
                             let c = norm(c);
                             let t = norm(text);
-                            if c == format!("--{}", t) {
+                            // (a line comment runs to the end of its line: blanks that followed the insertion point belong to it)
+                            if c.trim_end() == format!("--{}", t).trim_end() {
                                 return true;
                             }
                             if let Some(rest) = c.strip_prefix("--[") {
